@@ -94,19 +94,23 @@ Definition spec_data (e : entity) (cs : list component) : Prop :=
    carrying the prefix SCREAMING_SNAKE(entity)_STATUS_ *)
 (* [n0]: the number the first status declares (0 = none): a first status ending in UNSPECIFIED that
    declares no number IS the zero value; declared numbers do not otherwise influence the numbering *)
-Definition declared_after_zero_n (l : list bytes) (n0 : N) : list bytes :=
+(* a first option that spells the zero value itself: the name of its enum value - the option, with the
+   prefix put in front unless it carries it already - is <PREFIX>UNSPECIFIED, i.e. the option is written
+   UNSPECIFIED or <PREFIX>UNSPECIFIED (fix a65e1f2: before, any first option ENDING in UNSPECIFIED) *)
+Definition sp_explicit_zero (prefix s : bytes) : bool :=
+  bytes_eqb (if has_prefix prefix s then s else prefix ++ s) (prefix ++ bs "UNSPECIFIED").
+Definition declared_after_zero_n (prefix : bytes) (l : list bytes) (n0 : N) : list bytes :=
   match l with
-  | s :: r => if has_suffix (bs "UNSPECIFIED") s && (n0 =? 0) then r else l
+  | s :: r => if sp_explicit_zero prefix s && (n0 =? 0) then r else l
   | [] => []
   end.
-Definition declared_after_zero (l : list bytes) : list bytes := declared_after_zero_n l 0.
 Definition sp_first_number (e : entity) : N := match e_status_num e with n :: _ => n | [] => 0 end.
 Definition spec_status (e : entity) (cs : list component) : Prop :=
   exists vs, has_enum cs (sp_name e "Status") vs
     /\ (exists z, nth_error vs 0 = Some (z, 0) /\ has_suffix (bs "UNSPECIFIED") z = true
                   /\ has_prefix (sp_status_prefix e) z = true)
-    /\ length vs = S (length (declared_after_zero_n (e_status e) (sp_first_number e)))
-    /\ forall k s, nth_error (declared_after_zero_n (e_status e) (sp_first_number e)) k = Some s ->
+    /\ length vs = S (length (declared_after_zero_n (sp_status_prefix e) (e_status e) (sp_first_number e)))
+    /\ forall k s, nth_error (declared_after_zero_n (sp_status_prefix e) (e_status e) (sp_first_number e)) k = Some s ->
          exists v, nth_error vs (S k) = Some (v, N.of_nat (S k))
                    /\ has_prefix (sp_status_prefix e) v = true /\ has_suffix s v = true.
 
@@ -255,7 +259,7 @@ Definition sp_enum_value_name (prefix s : bytes) : bytes := if has_prefix prefix
 Definition sp_inline_enum_values (name : bytes) (opts : list bytes) : list bytes :=
   let prefix := to_screaming_snake name ++ [95] in
   match opts with
-  | s :: _ => if has_suffix (bs "UNSPECIFIED") s then map (sp_enum_value_name prefix) opts
+  | s :: _ => if sp_explicit_zero prefix s then map (sp_enum_value_name prefix) opts
               else (prefix ++ bs "UNSPECIFIED") :: map (sp_enum_value_name prefix) opts
   | [] => [prefix ++ bs "UNSPECIFIED"]
   end.
@@ -409,7 +413,7 @@ Definition command_service (e : entity) (c : command) : bytes :=
 Definition sp_value_name (prefix s : bytes) : bytes := if has_prefix prefix s then s else prefix ++ s.
 Definition sp_enum_values_n (prefix : bytes) (opts : list bytes) (n0 : N) : list bytes :=
   match opts with
-  | s :: _ => if has_suffix (bs "UNSPECIFIED") s && (n0 =? 0) then map (sp_value_name prefix) opts
+  | s :: _ => if sp_explicit_zero prefix s && (n0 =? 0) then map (sp_value_name prefix) opts
               else (prefix ++ bs "UNSPECIFIED") :: map (sp_value_name prefix) opts
   | [] => [prefix ++ bs "UNSPECIFIED"]
   end.
@@ -445,7 +449,11 @@ Definition sp_topic_scope (e : entity) : list bytes :=
               (e_summaries e).
 
 Definition in_quantifier (e : entity) : bool :=
-  name_ok (e_name e) && pkg_ok (e_pkg e)
+  (* the options of one enum - the statuses, the options of an enum of the block or of an inline enum -
+     are distinct names for protobuf: their canonical names (enum-name prefix removed, PascalCase, protoc's
+     rule) differ; `Active` next to `ACTIVE` is one name twice (a positioned compile error since fix 4fb405b) *)
+  decl_enums_ok e
+  && name_ok (e_name e) && pkg_ok (e_pkg e)
   && (is_nil (e_base_url e) || (rel_path_ok (e_base_url e) && is_nil (colon_params (e_base_url e))))
   (* 1..n keys of any type *)
   && negb (is_nil (e_keys e)) && fields_wf (map k_def (e_keys e)) && forallb (ref_ok e) (map k_def (e_keys e))
@@ -453,7 +461,7 @@ Definition in_quantifier (e : entity) : bool :=
   && fields_wf (e_data e) && forallb (ref_ok e) (e_data e)
   (* 1..n statuses: identifiers; only the first may be the UNSPECIFIED value *)
   && negb (is_nil (e_status e)) && forallb name_ok (e_status e)
-  && forallb (fun s => negb (has_suffix (bs "UNSPECIFIED") s)) (tl (e_status e))
+  && forallb (fun s => negb (sp_explicit_zero (sp_status_prefix e) s)) (tl (e_status e))
   (* 0..n events: object names (upper-case initial), distinct also as oneof options *)
   && forallb (fun ev => type_name_ok (ev_name ev) && fields_wf (ev_fields ev) && forallb (ref_ok e) (ev_fields ev))
              (e_events e)
